@@ -7,7 +7,7 @@ from ..selftest import Mutant
 
 ID = "C38"
 TECHNIQUE = "sibling-interface agreement over the GitShaMap / CacheUpdater class hierarchy: override sets, arities, dispatch kinds (ast + in-repo MRO)"
-FLOOR = 58
+FLOOR = 77
 CF = "breezy/git/cache.py"
 EXPLANATION = """
 K7 over every concrete subclass of breezy/git/cache.py:GitShaMap and CacheUpdater found in the repository on this run:
@@ -20,7 +20,9 @@ K7 over every concrete subclass of breezy/git/cache.py:GitShaMap and CacheUpdate
    tabled backend whose storage commits implicitly.
 Added while testing against seeded changes: Also: where an updater writes the sha -> key record it writes the key ->
 sha record on every continuation; per-write-group state reset by commit_write_group is reset by abort_write_group;
-lookup_git_sha is multi-valued in every backend.
+lookup_git_sha is multi-valued in every backend; both forms of an object handed to add_object (object, (type, sha)
+reference) reach the kind dispatch; in a backend with a committed and a pending index store every method that looks
+keys up in one looks them up in the other (transitively through helpers of the class).
 Does not decide: equality of the answers themselves (values stored by each backend).
 """
 ASSUMPTIONS = ["backends are compared through their class definitions; registration in the format registry is not part of the rule"]
@@ -95,6 +97,48 @@ def run(ctx):
         ys = [n for n in ast.walk(f) if isinstance(n, (ast.Yield, ast.YieldFrom))]
         multi = any(isinstance(n, ast.YieldFrom) for n in ys) or any(isinstance(l_, (ast.For, ast.While)) and any(isinstance(n, ast.Yield) for n in ast.walk(l_)) for l_ in ast.walk(f))
         ctx.check("lookup-git-sha-multivalued", f"{rel}:{q}.lookup_git_sha", bool(ys) and multi, f"{q}.lookup_git_sha can yield every record stored for the sha (yield inside a loop / yield from)", message=f"{q}.lookup_git_sha yields at most one record per git sha: when the same blob or tree is recorded under several (file id, revision) keys the other backends answer with all of them, this one with the first only")
+    # ---- a backend with a committed store and a pending (write-group) store reads both together ---------------------
+    # Any method that looks keys up in one of the two (directly or through a helper of the class) looks them up in the
+    # other as well: an existence check that asks only the pending builder stores a key a second time, a query that
+    # asks only the committed indices does not see what lookup_* already answers.
+    n_two = 0
+    for rel, q in subs:
+        cls = repo.cls(rel, q)
+        stores = {}
+        for n in ast.walk(cls):
+            if isinstance(n, ast.Assign) and isinstance(n.targets[0], ast.Attribute) and norm(n.targets[0].value) == "self" and isinstance(n.value, ast.Call):
+                ctor = (norm(n.value.func)).rsplit(".", 1)[-1]
+                if ctor == "CombinedGraphIndex":
+                    stores[n.targets[0].attr] = "committed"
+                elif ctor == "BTreeBuilder":
+                    stores[n.targets[0].attr] = "pending"
+        if set(stores.values()) != {"committed", "pending"}:
+            continue
+        n_two += 1
+        meths = {m.name: m for m in cls.body if isinstance(m, ast.FunctionDef)}
+        direct = {m: set() for m in meths}
+        callees = {m: set() for m in meths}
+        for m, f in meths.items():
+            for c in calls_in(f):
+                rv = call_recv(c) or ""
+                if rv.startswith("self.") and rv[5:] in stores and call_attr(c) in ("iter_entries", "iter_entries_prefix"):
+                    direct[m].add(stores[rv[5:]])
+                if rv == "self" and call_attr(c) in meths:
+                    callees[m].add(call_attr(c))
+        reads = {m: set(v) for m, v in direct.items()}
+        changed = True
+        while changed:
+            changed = False
+            for m in meths:
+                for c in callees[m]:
+                    if not reads[c] <= reads[m]:
+                        reads[m] |= reads[c]
+                        changed = True
+        readers = sorted(m for m in meths if reads[m])
+        ctx.require(len(readers) >= 4, f"{rel}:{q}: only {len(readers)} methods read the index stores (hand-confirmed: >= 8)")
+        for m in readers:
+            ctx.check("stores-read-together", f"{rel}:{q}.{m}", reads[m] == {"committed", "pending"}, f"{q}.{m} consults the committed indices and the pending builder", construct=f"{q}.{m} reads only the {sorted(reads[m])} store", message=f"{q}.{m} looks keys up only in the {sorted(reads[m])[0]} store of the index backend: " + ("an existence check that ignores the committed indices writes a key again (a second, possibly different value for the same key), and a query that ignores them forgets everything from earlier write groups" if reads[m] == {"pending"} else "entries added in the open write group are invisible to it although the sibling queries (and the other backends) already answer for them"))
+    ctx.require(n_two >= 1, "no backend with a committed and a pending index store found (hand-confirmed: IndexGitShaMap)")
     ups = _subclasses(repo, "CacheUpdater")
     ctx.require(len(ups) >= 4, f"only {len(ups)} CacheUpdater classes found (hand-confirmed: 4)")
     for rel, q in ups:
@@ -117,7 +161,7 @@ def run(ctx):
         # where a kind branch writes the sha -> key record it also writes the key -> sha record on every continuation
         # (an early return between the two drops the reverse entry)
         from ..cfg import build_cfg
-        from ..rules import calling
+        from ..rules import calling, edges_out, test_nodes
 
         g = build_cfg(fn)
         for kind in ("commit", "blob"):
@@ -127,11 +171,28 @@ def run(ctx):
                 gx = g.without_exc_edges()
                 r_ = gx.reach(fw_, avoid=set(bw_))
                 ctx.check("updater-both-directions", where, bool(bw_) and gx.exit not in r_, f"{q}.add_object: after the sha -> {kind} record the ({kind}, …) -> sha record is written on every path", message=f"{q}.add_object can record the git sha of a {kind} without the reverse ({kind} key -> sha) entry: lookup_{'blob_id' if kind == 'blob' else 'commit'} raises KeyError on this backend for objects the other backends know")
+        # both forms of `obj` — a real object and a (type name, hexsha) reference — reach the kind dispatch: a
+        # reference that returns before it leaves the key -> sha record unwritten on this backend only
+        p0 = [p for p in param_names(fn) if p != "self"][:1]
+        ref_tests = test_nodes(g, lambda t: isinstance(t, ast.Call) and norm(t.func) == "isinstance" and len(t.args) == 2 and p0 and norm(t.args[0]) == p0[0] and norm(t.args[1]) == "tuple")
+        kind_tests = test_nodes(g, lambda t: any(isinstance(n, ast.Compare) and any(isinstance(c, ast.Constant) and c.value in KINDS for c in n.comparators) for n in ast.walk(t)))
+        ctx.check("updater-reference-form-dispatched", where, bool(ref_tests) and bool(kind_tests), f"{q}.add_object distinguishes the reference form of `{p0[0] if p0 else '?'}` and dispatches on the kind")
+        if ref_tests and kind_tests:
+            gx = g.without_exc_edges()
+            for lab, form in (("T", "reference (type name, hexsha)"), ("F", "object")):
+                srcs = [b for t in ref_tests for (_a, b, _l) in edges_out(gx, t, lab)]
+                r_ = gx.reach(srcs, avoid=set(kind_tests), include_src=True)
+                w = gx.path(srcs, [gx.exit], avoid=set(kind_tests)) if gx.exit in r_ else None
+                ctx.check("updater-reference-form-dispatched", where, gx.exit not in r_, f"{q}.add_object: the {form} form reaches the kind dispatch on every normal path", construct=f"{form} form returns before the kind dispatch", message=f"{q}.add_object returns for the {form} form of an object before dispatching on its kind: nothing is recorded for it on this backend, so lookup_blob_id / lookup_tree_id raise KeyError here for entries the sibling backends answer", witness=gx.show_path(w) if w else None)
         rf = repo.resolve_method(rel, q, "finish")
         ctx.check("updater-finish", f"{rel}:{q}.finish", rf is not None and (rf[0], rf[1]) != (CF, "CacheUpdater"), f"{q} implements finish()")
 
 
 MUTANTS = [
+    Mutant("index existence check asks only the pending builder", CF, "        try:\n            self._get_entry(key)\n        except KeyError:\n            self._builder.add_node(key, value)\n            return False\n        else:\n            return True\n", "        if next(self._builder.iter_entries([key]), None) is not None:\n            return True\n        self._builder.add_node(key, value)\n        return False\n", expect="stores-read-together"),
+    Mutant("missing_revisions forgets the open write group", CF, "        if self._builder is not None:\n            # Revisions added in the open write group are known as well.\n            for _, key, _value in self._builder.iter_entries(keys):\n                missing_revids.discard(key[1])\n", "", expect="stores-read-together", where="missing_revisions"),
+    Mutant("sqlite updater ignores object references", CF, "        if isinstance(obj, tuple):\n            (type_name, hexsha) = obj\n        else:\n            type_name = obj.type_name.decode(\"ascii\")\n            hexsha = obj.id\n        if not isinstance(hexsha, bytes):\n            raise TypeError(hexsha)\n        if type_name == \"commit\":\n            self._commit = obj\n            if not isinstance(bzr_key_data, dict):\n                raise TypeError(bzr_key_data)\n            self._testament3_sha1", "        if isinstance(obj, tuple):\n            return\n        else:\n            type_name = obj.type_name.decode(\"ascii\")\n            hexsha = obj.id\n        if not isinstance(hexsha, bytes):\n            raise TypeError(hexsha)\n        if type_name == \"commit\":\n            self._commit = obj\n            if not isinstance(bzr_key_data, dict):\n                raise TypeError(bzr_key_data)\n            self._testament3_sha1", expect="updater-reference-form-dispatched"),
+    Mutant("neutral: existence check written with a membership helper", CF, "        try:\n            self._get_entry(key)\n        except KeyError:\n            self._builder.add_node(key, value)\n            return False\n        else:\n            return True\n", "        try:\n            self._get_entry(key)\n        except KeyError:\n            pass\n        else:\n            return True\n        self._builder.add_node(key, value)\n        return False\n", neutral=True),
     Mutant("index updater skips the blob key for known content", CF, "            self.cache.idmap._add_git_sha(hexsha, b\"blob\", bzr_key_data)\n            self.cache.idmap._add_node(", "            self.cache.idmap._add_git_sha(hexsha, b\"blob\", bzr_key_data)\n            if bzr_key_data is None:\n                return\n            self.cache.idmap._add_node(", expect="updater-both-directions"),
     Mutant("per-group state cleared on commit only", CF, "        self._index.insert_index(0, index)\n        self._builder = None\n        self._name = None\n", "        self._index.insert_index(0, index)\n        self._builder = None\n        self._name = None\n        self._seen = set()\n", expect="write-group-reset-parity"),
     Mutant("neutral: helper method added to a backend", CF, "class IndexGitShaMap(GitShaMap):", "class IndexGitShaMap(GitShaMap):\n    def _placeholder(self):\n        pass\n", neutral=True),
